@@ -99,6 +99,7 @@ func init() {
 		if all || want["dart"] {
 			// the root directory as LoadSources computes it for a single file
 			root := filepath.Dir(target)
+			res.Gen["dart_root"] = genOut{Outcome: "ok", Text: filepath.ToSlash(root)}
 			res.Gen["dart"] = runGen(func() string {
 				outs := dart.Generate(root, []*analysis.Analysis{an})
 				sort.Slice(outs, func(i, j int) bool { return outs[i].Filename < outs[j].Filename })
